@@ -62,25 +62,18 @@ def obligations(ctx):
     return [Ob('Q1.AuxLatitude.ctor-invariant', ob_ctor_invariant, '[REAL] structural', 'E2 rsym+z3', 'AuxLatitude(a, f) fills every row of the coefficient cache (no NaN sentinel left), on every constructor path: the lazy fill in the const members is dead', timeout=300,
                bounds={'a': '> 0', 'f': '(-1, 1)'})] + [Ob('Q1.' + k, _cb(k), '[ABS] write-set', 'E1 cgen+cbmc', 'empty shared write-set: ' + e[5], timeout=630, bounds={'object': 'arbitrary image', 'arguments': 'arbitrary', 'loops': 'unwound to %d' % e[4]}) for k, e in ENTRIES.items()]
 
+TSAN = {
+    'AuxLatitude.Convert': ('  const AuxLatitude aux(6378137.0, 1/298.257223563);', 'AuxAngle z = AuxAngle::degrees(40.0 + t); volatile double r = aux.Convert(AuxLatitude::GEOGRAPHIC, AuxLatitude::CONFORMAL, z, false).degrees(); (void)r;'),
+    'OSGB.computenorthoffset': ('', 'double x, y; OSGB::Forward(52.0 + t, -1.0, x, y); volatile double r = x; (void)r;'),
+}
 def replay(rp):
+    """the write found by the solver is confirmed on the real code with ThreadSanitizer: 4 threads make the same const call on a shared object /
+    static function once each; a report of accesses unordered by happens-before reproduces the race (no particular interleaving needed)"""
     cex = rp['cex']; key = cex.get('entry')
-    if key == 'AuxLatitude.Convert':
-        # concrete confirmation on the real code: a const call on a shared AuxLatitude changes the object's bytes
-        body = r"""
-  using namespace GeographicLib;
-  const AuxLatitude aux(6378137.0, 1/298.257223563);
-  unsigned char before[sizeof(AuxLatitude)], after[sizeof(AuxLatitude)];
-  memcpy(before, &aux, sizeof(AuxLatitude));
-  AuxAngle z = AuxAngle::degrees(40.0);
-  AuxAngle r = aux.Convert(AuxLatitude::GEOGRAPHIC, AuxLatitude::CONFORMAL, z, false);     // const member, series mode
-  memcpy(after, &aux, sizeof(AuxLatitude));
-  int changed = 0; for (size_t i = 0; i < sizeof(AuxLatitude); ++i) changed += before[i] != after[i];
-  printf("changed=%d\n", changed);
-"""
-        r = H.native_run('w_AuxLatitude', body, sanitize=False, includes='#include <cstring>')
-        ch = int(r['vals'].get('changed', '0'))
-        return ch > 0, 'const AuxLatitude::Convert(GEOGRAPHIC, CONFORMAL, 40deg, exact=false) on a shared const object modified %d bytes of the object (lazily filled coefficient cache _c): concurrent callers race on it' % ch
-    return None, 'no concrete replay for entry %r' % key
+    if key not in TSAN: return None, 'no threads replay registered for entry %r' % key
+    r = H.tsan_run(*TSAN[key])
+    if r['race'] is None: return None, 'threads replay timed out'
+    return bool(r['race']), ('ThreadSanitizer on the real code, 4 concurrent callers of %s: %s' % (key, r['report'])) if r['race'] else 'ThreadSanitizer reports no race for 4 concurrent callers of %s' % key
 
 MANIFEST = {
     'engine': 'E1',
